@@ -832,19 +832,16 @@ def block_switch_rules(fb, R):
 
         def edge_ok(b, idx, s, fn=fn):
             blk = fn.blocks[b]
-            if 'cond' not in blk or len(blk['succs']) != 2:
+            if 'cond' not in blk or len(blk['succs']) != 2 or blk.get('termcls') == 'BinaryOperator':
                 return True
-            # the only way around a new block: can_add(...) answered true, i.e. the false edge of `!can_add(..)`
-            txt = fn.sn(blk['cond'])
-            for x in fn.subtree(blk['cond']):
-                nx = fn.nodes[x]
-                if nx.get('k') == 'call' and nx.get('q') == PB + '::can_add':
-                    neg = _negated(fn, blk['cond'], x)
-                    if neg is not None:
-                        # edge on which can_add was true
-                        true_edge = 1 if neg else 0
-                        if idx == true_edge:
-                            return False
+            # the only way around a new block: an edge on which can_add(...) is known to have answered true
+            from ..c01_util import _expand
+            facts = []
+            _expand(fn, blk['cond'], idx == 0, b, facts)
+            for (c, sense, _d) in facts:
+                n = codec.through_locals(fn, c)
+                if n is not None and n.get('k') == 'call' and n.get('q') == PB + '::can_add' and sense:
+                    return False
             return True
         w = path_search(fn, fn.entry, lambda x: isinstance(x, tuple) and x[0] == 'exit', lambda x: x in ids, edge_ok, from_block_start=True)
         R.check(bool(assigns) and w is None, 'block-switch-before-use', fn.q + '#new-block', fn.site,
@@ -1623,7 +1620,8 @@ def compression_layer_rules(fb, R):
             for c in f.all_nodes():
                 if c.get('k') == 'call' and c.get('q', '').startswith(RD + '::') and c.get('args'):
                     for g in fb.by_usr.get(c.get('u'), []):
-                        if g.has_cfg and any(x.get('k') == 'call' and x.get('q') == F + 'create_decompressor' for x in g.all_nodes()):
+                        if g.has_cfg and (any(x.get('k') == 'call' and x.get('q') == F + 'create_decompressor' for x in g.all_nodes())
+                                          or (F + 'create_decompressor') in fb.callees_closure(g, depth=3)):
                             for a in c['args']:
                                 r = f.root_var(a)
                                 if r is not None and r[0] == 'field' and any(x['q'] == r[1] for x in ints):
@@ -1748,6 +1746,31 @@ def _reject_polarity(fn, cmp_id):
     return None
 
 
+def _credit_callers(fb, fn, idx, depth=0, seen=None):
+    """Call sites that supply parameter idx of fn, followed transitively while the argument is itself a parameter of the caller:
+    [(key, site)] -- so that a guard keeps its instances when it is moved into (or out of) a validation helper."""
+    seen = set() if seen is None else seen
+    if (fn.usr, idx) in seen or depth > 3:
+        return []
+    seen.add((fn.usr, idx))
+    out = []
+    for g in fb.functions:
+        if not g.has_cfg or g.usr == fn.usr:
+            continue
+        gp = {p['d']: i for i, p in enumerate(g.params)}
+        for c in g.all_nodes():
+            if c.get('k') == 'call' and c.get('u') == fn.usr and len(c.get('args', [])) > idx:
+                a = codec.through_locals(g, c['args'][idx])
+                sub = []
+                if a is not None and a.get('k') == 'var' and a.get('d') in gp:
+                    sub = _credit_callers(fb, g, gp[a['d']], depth + 1, seen)
+                if sub:
+                    out.extend(sub)
+                else:
+                    out.append(('%s(%s)#%s' % (g.q, ', '.join(p['tC'] for p in g.params), g.expr(c['args'][idx])), g.loc(c['id'])))
+    return out
+
+
 def string_length_rules(fb, R):
     """Every reject-guard that compares a length with osmium::max_osm_string_length rejects exactly len > max: one bound for
     builders (what a writer can be handed) and readers (what they accept back)."""
@@ -1791,12 +1814,21 @@ def string_length_rules(fb, R):
             op = n['op'] if side == 'rhs' else flip[n['op']]
             other = n['lhs'] if side == 'rhs' else n['rhs']
             rejected = [(_CMP[op](v, bound) == pol) for v in (mx - 1, mx, mx + 1)]
-            key = '%s(%s)#%s' % (fn.q, ', '.join(p['tC'] for p in fn.params), fn.expr(other))
+            keys = [('%s(%s)#%s' % (fn.q, ', '.join(p['tC'] for p in fn.params), fn.expr(other)), fn.loc(n['id']))]
+            # a validation helper that checks one of its parameters: the guard belongs to every caller (one instance per call site
+            # and checked argument, as if the helper were inlined)
+            ov = codec.through_locals(fn, other)
+            pidx = {p['d']: i for i, p in enumerate(fn.params)}
+            if ov is not None and ov.get('k') == 'var' and ov.get('d') in pidx:
+                sites = _credit_callers(fb, fn, pidx[ov['d']])
+                if sites:
+                    keys = sites
             what = ('rejects a string of exactly max_osm_string_length (%d) bytes that the other builders, writers and readers accept' % mx
                     if rejected[1] else 'accepts strings longer than max_osm_string_length (%d) that every other site rejects' % mx
                     if not rejected[2] else 'rejects strings shorter than the maximum')
-            R.check(rejected == [False, False, True], 'string-length-bound-agrees', key, fn.loc(n['id']),
-                    '%s: the guard `%s` %s' % (fn.q, fn.expr(n['id']), what))
+            for (key, site) in keys:
+                R.check(rejected == [False, False, True], 'string-length-bound-agrees', key, site,
+                        '%s: the guard `%s` %s' % (fn.q, fn.expr(n['id']), what))
 
 
 # ================================================================================================ XML self-closing elements
@@ -2110,7 +2142,7 @@ def run(ctx):
         ('reader-decompressor-honours-compression', 3),  # make_decompressor: 2 factory calls + DummyDecompressor
         ('writer-compressor-honours-compression', 1),    # Writer constructor
         ('reader-fd-for-parser-only-if-not-real', 1),    # Reader constructor
-        ('string-length-bound-agrees', 11),              # 10 builder guards (add_tag x6, add_role, add_user, set_user x2) + decode_stringtable
+        ('string-length-bound-agrees', 21),              # 11 guards; a guard on a helper's length parameter is credited to each call site
         ('xml-self-closing-only-when-empty', 4),         # XMLOutputBlock::node, way, relation, changeset
         ('value-range-bound-agrees', 10),                # pbf changeset x2, o5m uid + version, opl_parse_int max/min, string_to_ulong,
                                                          # parse_timestamp, string_to_location_coordinate max/min
